@@ -199,6 +199,9 @@ def finish(pid, tier, seed, mod, shards, wall):
         with open(path, "w") as f:
             json.dump({"property": pid, "tier": tier, "seed": seed, "index": v.get("index"), "violation": v}, f, indent=1, default=str)
         lines.append(f"VIOLATION property={pid} replay={os.path.relpath(path, env.VERIF)}  # {v.get('kind')}: {str(v.get('msg'))[:160]}")
+    if new:
+        with open(os.path.join(rdir, f"_all_{tier}_s{seed}.json"), "w") as f:
+            json.dump([{k: v.get(k) for k in ("index", "kind", "msg", "exc", "where", "feature", "flavours", "frame", "mechanism", "estimator")} for v in new[:2000]], f, indent=0, default=str)
     for mech, vs in known_hits.items():
         lines.append(f"KNOWN-FINDING: property={pid} {open_mech[mech]['id']} {open_mech[mech]['what']} (x{len(vs)} in this run)")
 
